@@ -30,6 +30,9 @@ type ExecResult struct {
 	Outcome string
 	Steps   int
 	Horizon bool
+	// Mismatch: an observed (code-made) choice differed from the replayed one;
+	// the execution is discarded and re-run.
+	Mismatch bool
 }
 
 // Stats is the measured coverage of an exploration.
@@ -45,6 +48,11 @@ type Stats struct {
 	DetReruns     int            `json:"determinism_reruns"`
 	Exhaustive    bool           `json:"exhaustive"`
 	HorizonHits   int            `json:"horizon_hits"`
+	// ObservedRetries counts executions discarded because a code-made choice
+	// differed from the replayed one; UnobservedAlternatives counts alternatives
+	// of such choices that never showed up within the retry bound.
+	ObservedRetries        int `json:"observed_choice_retries,omitempty"`
+	UnobservedAlternatives int `json:"unobserved_alternatives,omitempty"`
 	DevHistogram  map[string]int `json:"executions_by_deviation_count"`
 	outcomes      map[[16]byte]bool
 	SampleTrace   []string `json:"sample_trace,omitempty"`
@@ -115,7 +123,20 @@ func (e *Explorer) runOnce(prefix []int) *ExecResult {
 		b, _ := json.Marshal(map[string]any{"scenario": e.Scenario, "picks": prefix})
 		os.WriteFile(e.Inflight, b, 0644)
 	}
-	return e.Run(prefix)
+	return e.runRetry(prefix)
+}
+
+// runRetry re-runs an execution whose observed choices did not match the
+// replayed ones (bounded); nil means the recorded alternative never showed up.
+func (e *Explorer) runRetry(prefix []int) *ExecResult {
+	for try := 0; try < 300; try++ {
+		x := e.Run(prefix)
+		if !x.Mismatch {
+			return x
+		}
+		e.Stats.ObservedRetries++
+	}
+	return nil
 }
 
 func (e *Explorer) explore(prefix []int, depth int) {
@@ -128,6 +149,12 @@ func (e *Explorer) explore(prefix []int, depth int) {
 		return
 	}
 	x := e.runOnce(prefix)
+	if x == nil {
+		// an alternative of an observed choice could not be produced
+		e.Stats.UnobservedAlternatives++
+		e.Stats.Exhaustive = false
+		return
+	}
 	e.Stats.Executions++
 	e.Stats.Transitions += x.Steps
 	if len(x.Points) > e.Stats.MaxDepth {
@@ -166,7 +193,10 @@ func (e *Explorer) explore(prefix []int, depth int) {
 		}
 		picks := picksOf(x)
 		for r := 0; r < reruns; r++ {
-			y := e.Run(picks)
+			y := e.runRetry(picks)
+			if y == nil {
+				continue
+			}
 			e.Stats.DetReruns++
 			if !reflect.DeepEqual(x.Trace, y.Trace) || x.Outcome != y.Outcome || !sameViolations(x.Violations, y.Violations) {
 				panic(EngineError{fmt.Sprintf("nondeterministic replay in scenario %s picks %v:\n--- first\n%s\n--- second\n%s\noutcomes %q vs %q", e.Scenario, picks, strings.Join(x.Trace, "\n"), strings.Join(y.Trace, "\n"), x.Outcome, y.Outcome)})
@@ -245,7 +275,7 @@ func picksOf(x *ExecResult) []int {
 	}
 	// Trim trailing defaults: a replay takes 0 past the prefix anyway.
 	n := len(out)
-	for n > 0 && out[n-1] == 0 {
+	for n > 0 && out[n-1] == 0 && !x.Points[n-1].Observed {
 		n--
 	}
 	return out[:n]
